@@ -26,11 +26,14 @@
                                normal/break/continue completions" (`Res.qle`), collapsing to equality at the call
                                boundary; both directions (`expr_stmt_void_le`, `expr_stmt_void_ge`) and equality of
                                finished script outcomes (`expr_stmt_vs_value_position_sound`).
+                               The second form of this rewrite, `e;` -> `(e, 0);`, is proved the same way
+                               (`expr_stmt_comma_le/_ge/_body`, `expr_stmt_comma_sound`, Comma.lean).
   NOT proved (exercised by the correspondence only): iife_wrap, const_inline, toString re-evaluation.
 -/
 import GojaModel.C02.Instances
 import GojaModel.C02.Wrap
 import GojaModel.C02.Erase
+import GojaModel.C02.Comma
 
 namespace GojaModel.C02
 
@@ -158,6 +161,33 @@ theorem expr_stmt_vs_value_position_sound (P : Prog) (r : Res) (hfin : r ≠ .ti
     · rw [h] at h1; exact absurd h1 hfin
     · exact ⟨2 * n, by rw [← h1, h]⟩
 
+/-! ### expr_stmt_vs_value_position, second form: `e;` ↦ `(e, 0);` inside function bodies -/
+
+theorem expr_stmt_comma_le (P : Prog) (n : Nat) (t : Task) (env : Env) (st : St) :
+    Res.le (eval (exprStmtComma P) n t env st) (eval P n t env st) :=
+  (comma_inv1 P n).A t env st
+
+theorem expr_stmt_comma_ge (P : Prog) (n : Nat) (t : Task) (env : Env) (st : St) :
+    Res.le (eval P n t env st) (eval (exprStmtComma P) (2 * n) t env st) :=
+  (comma_inv2 P n).A t env st
+
+theorem expr_stmt_comma_body (P : Prog) (n : Nat) (s : Stmt) (l : List Name) (env : Env) (st : St) :
+    Res.qle (eval (exprStmtComma P) n (.stmt (cS s) l) env st) (eval P n (.stmt s l) env st) :=
+  (comma_inv1 P n).S s l env st
+
+/-- A script and its `(e, 0)`-rewritten version have the same finished outcomes (completion value included). -/
+theorem expr_stmt_comma_sound (P : Prog) (r : Res) (hfin : r ≠ .timeout) :
+    (∃ n, run (exprStmtComma P) n = r) ↔ (∃ n, run P n = r) := by
+  constructor
+  · rintro ⟨n, h⟩
+    rcases run_comma_le P n with h1 | h1
+    · rw [h] at h1; exact absurd h1 hfin
+    · exact ⟨n, by rw [← h1, h]⟩
+  · rintro ⟨n, h⟩
+    rcases run_le_comma P n with h1 | h1
+    · rw [h] at h1; exact absurd h1 hfin
+    · exact ⟨2 * n, by rw [← h1, h]⟩
+
 /-! ### non-vacuity (tests on literals: the rewrites do change concrete programs) -/
 
 /-- `log(1); if (false) { eval("") } throw 2; log(3)` inside a function that is called. -/
@@ -178,6 +208,7 @@ example : (run demo 10).show = "T 2 | 1" := by decide
 example : progSize (blockWrap demo) = 18 := by decide
 example : (run (blockWrap demo) 10).show = "T 2 | 1" := by decide
 example : (run (exprStmtVoid demo) 10).show = "T 2 | 1" := by decide
+example : (run (exprStmtComma demo) 10).show = "T 2 | 1" := by decide
 example : progSize (exprStmtVoid demo) = progSize demo ∧ (exprStmtVoid demo).funs.map (fun fd => fd.body.length) = [5] := by decide
 
 end GojaModel.C02
